@@ -73,8 +73,9 @@ TNext ==
    /\ LET ev == TraceLog[l] IN
       IF ev.e = "Reset" THEN
            /\ kind' = ev.kind
-           /\ size' = ev.size /\ q' = <<>> /\ head' = 0 /\ tail' = 0
-           /\ mem' = [i \in 0..(ev.size-1) |-> 0] /\ ret' = <<"init">>
+           \* the size is the one that was asked for; the size the ring reports is an observation like any other
+           /\ size' = ev.req /\ q' = <<>> /\ head' = 0 /\ tail' = 0
+           /\ mem' = [i \in 0..(ev.req-1) |-> 0] /\ ret' = <<"init">>
            /\ JudgeEv(ev, <<>>)
       ELSE IF ~sync THEN UNCHANGED <<vars, sync, kind>>
       ELSE IF ev.e = "Fault" THEN
